@@ -10,10 +10,12 @@ from pyvc.spec import REG
 from .expr import *  # noqa  (contracts of the expression layer, props C13 + C04)
 from . import expr as _expr
 from . import expr_native as _native
+from . import c13_types as _types  # service types as type expressions (contracts registered on import)
 
 LEVEL = "proof"
 _native.install(REG)
 _native.install_funnel()
+_native.install_types(REG)
 NATIVE = _native.NATIVE
 NATIVE_BUDGET = {"quick": 40, "thorough": 600}
 
@@ -71,6 +73,8 @@ TARGETED = [
     "@assert 0x_ == 1", "@assert 1__0 == 1", "@assert 1.e5 == 1", "@assert 'a", "@assert 'a\\'", "@assert \"\\x41\" == 'A'",
     "uint8 x\n@assert _offset_.foo == 1", "@deprecated 1", "@sealed 1", "@print", "@print 1 2", "Foo.1.0 x", "ns.A.1 x",
     "ns.A.1.0.0 x", "uint8 _x", "uint8 x\nuint8 x", "@union\nuint8 a", "void8 x", "void65", "uint0 x", "uint65 x",
+    "S.1.0 f", "S.1.0[2] f", "S.1.0[<=2] f", "S.1.0[<3] f", "@assert S.1.0._extent_ > 0", "@print S.1.0._bit_length_",
+    "@union\nS.1.0 a\nuint8 b", "@print S.1.0", "@assert {S.1.0} == {S.1.0}", "@assert S.1.0.foo", "ns.S.1.0 f",
     "float17 x", "saturated bool x", "truncated int8 x", "uint8[4294967296] x", "\x00", "\t\r", "#",
 ]
 DIGIT_LIMIT = ["@print 10**5000", "@assert 10**5000 / 0 == 1", "uint8 X = 10**5000", "uint8[10**5000 / 3] x",
@@ -117,6 +121,8 @@ def whole_text(eng, tier, seed):
     try:
         os.mkdir(os.path.join(root, "ns"))
         path = os.path.join(root, "ns", "A.1.0.dsdl")
+        with open(os.path.join(root, "ns", "S.1.0.dsdl"), "w") as f:  # a service type that the texts may refer to
+            f.write("uint8 a\n@sealed\n---\nuint8 b\n@sealed\n")
         for text in texts:
             if any(0xD800 <= ord(ch) <= 0xDFFF for ch in text):
                 continue  # not encodable as UTF-8: cannot be the text of a definition file
